@@ -495,7 +495,7 @@ Proof.
            destruct (inc_lt y q) eqn:D; [discriminate|].
            destruct (inc_lt q y) eqn:F.
            ++ rewrite (inc_lt_trans _ _ _ C F) in Hr. discriminate.
-           ++ rewrite (inc_lt_total _ _ D F) in Hr. congruence.
+           ++ assert (Eyq : y = q) by (apply inc_lt_total; assumption). subst y. congruence.
     + intros [= <-]. split; [exists v; split; [apply elem_of_cons; auto|exact E1]|].
       intros u q Hu Hq. apply elem_of_cons in Hu as [->|Hu].
       * rewrite E1 in Hq. injection Hq as <-. apply inc_lt_irrefl.
